@@ -61,6 +61,40 @@ def _forms(ref, text, lexer):
     return None
 
 
+LAZY_TEXTS = ['a b', "c 'd'", 'select 1', "x -- y\nz", '$$q$$;', 'é ', '"', '']
+
+
+def lazy_streams(tier):
+    """tokenize() and get_tokens() are generators: several may be alive at once"""
+    import itertools
+    from vlib import gensched
+    from sqlparse import lexer
+
+    def tok(t):
+        return (oracles.tname(t[0]), t[1])
+    facts = [(f'tokenize({t!r})', (lambda t=t: lexer.tokenize(t))) for t in LAZY_TEXTS] + \
+            [(f'get_tokens({t!r})', (lambda t=t: lexer.Lexer.get_default_instance().get_tokens(t))) for t in LAZY_TEXTS[:3]]
+    refs = [gensched.alone(f, tok) for _, f in facts]
+    combos = list(itertools.combinations_with_replacement(range(len(facts)), 2))
+    short = [0, 1, 5, 6]                 # triples: the streams of at most three tokens
+    combos += list(itertools.combinations_with_replacement(short if tier == 'quick' else short + [2, 4], 3))
+    info = {'tasks': [n for n, _ in facts], 'combinations': len(combos), 'schedules': 0, 'steps': 0}
+    viols = []
+
+    def work(chunk):
+        return [(combo, gensched.explore([facts[i][1] for i in combo], [tok] * len(combo), [refs[i] for i in combo]))
+                for combo in chunk]
+    for combo, st in [x for ch in core.pmap(work, core.chunked(combos, core.NPROC * 2)) for x in ch]:
+        info['schedules'] += st['schedules']
+        info['steps'] += st['steps']
+        for sched, ti, got, exp in st['violations'][:2]:
+            viols.append({'kind': 'not-lossless', 'sig': 'two-live-streams', 'combo': list(combo), 'schedule': list(sched),
+                          'text': ' | '.join(facts[i][0] for i in combo),
+                          'detail': f'stream {ti} yielded {got!r:.150} instead of {exp!r:.150} under schedule {list(sched)}',
+                          'size': len(sched)})
+    return info, viols
+
+
 def run(tier, seed):
     sp, info = _spaces(tier)
     ref = oracles.RefLexer()
@@ -77,9 +111,11 @@ def run(tier, seed):
     extra = [('ALLCP alone and in context', [(c,) for c in allcp] + [(c, x) for x in ctx for c in allcp] + [(x, c) for x in ctx for c in allcp], '')]
     merged, sizes = e1.run(sp, _evaluate, seed, bits=27 if tier == 'thorough' else 24, setup=_setup,
                            extra_cases=extra)
+    lz, lzv = lazy_streams(tier)
     cov = {
-        'evaluations': merged['n'],
+        'evaluations': merged['n'] + lz['schedules'],
         'distinct_nontrivial': merged['distinct'],
+        'lazy_streams': lz,
         'rule': 'every string of 1..n fragments over each alphabet (CLS: one representative per '
                 'code-point equivalence class of the current rule set, so every Python str of that '
                 'length is covered for the regex layer; CLS2: second representative for multi-member '
@@ -95,10 +131,14 @@ def run(tier, seed):
                   'non-empty; concatenation == input; Error tokens have length 1; token list equals a '
                   'reference first-match-wins scan that re-applies each compiled rule of '
                   'keywords.SQL_REGEX at each position and types words by its own ordered lookup in '
-                  'the nine tables; every 97th case also as utf-8 bytes / bytes+encoding / StringIO',
+                  'the nine tables; every 97th case also as utf-8 bytes / bytes+encoding / StringIO; '
+                  'lazy_streams: two or three token streams held at the same time and advanced in every order '
+                  '(vlib/gensched.py) each yield exactly what they yield alone',
         'bound': {'tier': tier, 'max_code_points': 4 if tier == 'thorough' else 3},
     }
-    return core.Result('C01', 'exploration', cov, violations=viols + merged['viol'],
+    for v in lzv:
+        merged['viol_count'][(v['kind'], v['sig'])] += 1
+    return core.Result('C01', 'exploration', cov, violations=viols + merged['viol'] + lzv,
                        viol_count=merged['viol_count'], model_errors=model_errors,
                        assumptions=['CPython re matches as documented', 'class partition argument of '
                                     'DESIGN 2.1 (same membership vector => indistinguishable to every rule)',
@@ -107,6 +147,10 @@ def run(tier, seed):
 
 
 def replay(case):
+    if case.get('sig') == 'two-live-streams':
+        _, v = lazy_streams('quick')
+        hit = [x for x in v if x['combo'] == case['combo']]
+        return {'violation': bool(hit), 'observed': hit[:1]}
     ref = oracles.RefLexer()
     from sqlparse import lexer
     bad = oracles.check_c01(ref, case['text'], lexer.tokenize)
